@@ -5,6 +5,7 @@
 import ClockBound.Model.Oracles
 import ClockBound.Model.OraclesD
 import ClockBound.Model.SeqlockSim
+import ClockBound.Model.DriverPoller
 namespace ClockBound.Driver
 open ClockBound
 
@@ -85,6 +86,21 @@ def client2Line (args : List String) (impl : List String) : String :=
     s!"{outcomeText o1} ; {outcomeText o2} | {v} | {String.intercalate "," tags}"
   | _ => "bad-op | |"
 
+
+/-- corder <11 client fields> => log <clock ids> ; <now() result> -/
+def corderLine (args impl : List String) : String :=
+  match ints args with
+  | some [as, an, vs, vn, b, dr, st, rs, rn, ms, mn] =>
+    let x : ClientIn := ⟨⟨⟨as, an⟩, ⟨vs, vn⟩, b, dr.toNat, 0, statusOfInt st⟩, ⟨rs, rn⟩, ⟨ms, mn⟩⟩
+    let m := computeBoundAt x.r x.real x.mono
+    -- `now()` reads REALTIME (id 0) then the monotonic clock (id 6); both reads happen before any check
+    let mlog := "0 6"
+    let ilog := match impl.splitOn ";" with
+      | ("log" :: l) :: _ => some (String.intercalate " " l)
+      | _ => none
+    let v := verdict "C12" true (ilog == some mlog)
+    s!"log {mlog} ; {outcomeText m} | {v} | {if x.meaningful then "meaningful" else "wild"}"
+  | _ => "bad-op | |"
 
 /-! ### daemon lines -/
 
@@ -275,6 +291,50 @@ def slLine (args impl : List String) : String :=
     | _ => "bad-ann | C02:FAILS oracle:unparsed |"
   | _, _ => "bad-op | C02:FAILS oracle:unparsed |"
 
+/-- the reader machine (`SL.rStep` itself) against scripted load results: at every step the log is a
+    one-block log whose version is 1, whose cells are 0 and whose generation is the scripted value
+    g0 + 2*(k % period) mod 2^16 for the k-th generation load. Counts the loads until the call returns.
+    (An instance of the `logs : Nat → Log` of theorem C18.bounded.) -/
+def soloRun (a : SL.Ann) (g0 period : Nat) : String := Id.run do
+  let genAt (k : Nat) : Nat := (g0 + 2 * (k % period)) % 65536
+  let mut r : SL.Reader := ({} : SL.Reader).call
+  let mut ver := 0
+  let mut gens := 0
+  let mut copies := 0
+  let mut fences := 0
+  let mut result : Option SL.RResult := none
+  let mut steps := 0
+  while result.isNone ∧ steps ≤ SL.stepBound + 5 do
+    let log := SL.initBlock 1 (genAt gens) SL.zeros
+    match r.pc with
+    | .version => ver := ver + 1
+    | .gen1 => gens := gens + 1
+    | .gen2 _ _ _ => gens := gens + 1
+    | .fence _ _ _ => fences := fences + 1
+    | .copy _ _ todo _ => if todo.length == SL.N then copies := copies + 1
+    | .idle => pure ()
+    let out := SL.rStep a log { r with view := {} } 0 0
+    r := out.1
+    result := out.2.1
+    steps := steps + 1
+  match result with
+  | some (.ok cells) => return s!"ok {SL.cellsText cells} v{ver} g{gens} c{copies} f{fences}"
+  | some .errNotInit => return s!"err v{ver} g{gens} c{copies} f{fences}"
+  | none => return s!"unbounded v{ver} g{gens} c{copies} f{fences}"
+
+/-- slx <g0> <period> => ok … | err v<n> g<n> c<n> f<n> | unbounded … -/
+def slxLine (args impl : List String) : String :=
+  match ints args with
+  | some [g0, period] =>
+    let m := soloRun {} g0.toNat (max period.toNat 1)
+    let returned := match impl with | "ok" :: _ => true | "err" :: _ => true | _ => false
+    -- bound on shared accesses: generation loads ≤ 1 + RETRIES
+    let genLoads := (impl.filterMap (fun t => if t.startsWith "g" then (t.drop 1).toNat? else none)).headD 0
+    let v := verdict "C18" true (returned && decide (genLoads ≤ SL.RETRIES + 1))
+    let tags := (if genLoads > 1000 then ["exhaust"] else ["short"])
+    s!"{m} | {v} | {String.intercalate "," tags}"
+  | _ => "bad-op | |"
+
 def processLine (line : String) : String :=
   let parts := line.splitOn " => "
   let req := (parts.headD "").trimAscii.toString.splitOn " " |>.filter (· ≠ "")
@@ -282,10 +342,13 @@ def processLine (line : String) : String :=
   match req with
   | "client" :: args => clientLine args impl
   | "client2" :: args => client2Line args impl
+  | "corder" :: args => corderLine args impl
   | "extract" :: args => extractLine args impl
   | "upd" :: args => updLine args impl
   | "gen" :: args => genLine args impl
   | "sl" :: args => slLine args impl
+  | "slx" :: args => slxLine args impl
+  | "poll" :: args => (DriverP.line "poll" args impl).getD "bad-op | |"
   | "drift" :: args => driftLine args (match impl with | "refused" :: _ => ["refused"] | x => x)
   | _ => "bad-op | |"
 
